@@ -34,6 +34,12 @@ def dt_now():
     return dt.datetime.now()
 
 
+def secs_until(then, now):
+    """Return the real time in seconds from local time now until local time then, across clock changes."""
+    delta = dt_util.as_local(then).astimezone(dt_util.UTC) - dt_util.as_local(now).astimezone(dt_util.UTC)
+    return delta.total_seconds()
+
+
 def parse_time_offset(offset_str):
     """Parse a time offset."""
     match = re.split(r"([-+]?\s*\d*\.?\d+(?:[eE][-+]?\d+)?)\s*(\w*)", offset_str)
@@ -464,7 +470,7 @@ class TrigTime:
                     except asyncio.TimeoutError:
                         actual_now = dt_now()
                         if actual_now < time_next:
-                            this_timeout = (time_next - actual_now).total_seconds()
+                            this_timeout = secs_until(time_next, actual_now)
                             # tests/tests_function's simple now() requires us to ignore
                             # timeouts that are up to 1us too early; otherwise wait for
                             # longer until we are sure we are at or past time_next
@@ -1203,7 +1209,7 @@ class TrigInfo:
                             except asyncio.TimeoutError:
                                 actual_now = dt_now()
                                 if actual_now < time_next:
-                                    timeout = (time_next - actual_now).total_seconds()
+                                    timeout = secs_until(time_next, actual_now)
                                     continue
                                 now = time_next
                                 if not state_trig_timeout:
